@@ -22,17 +22,13 @@ Proof.
   rewrite walk_F16a in H by (left; reflexivity). discriminate.
 Qed.
 
-(* ---------- F16d: a dict whose value is a forward-reference dataclass holding another instance:
-   the dict branch never runs _ensure_all_dicts, the inner instance stays a Python object ---------- *)
+(* ---------- F16d (fixed): a dict whose value is a forward-reference dataclass holding another
+   instance — the dict branch now runs _ensure_all_dicts too, the old witness meets the spec ---------- *)
 Definition h_F16d : heap := [SFwd []; SFwd [([112], 0%nat)]; SDict [([107], 1%nat)]].
 
-Lemma refuted_F16d :
-  guard_F16d h_F16d 2 = false /\ guard_F16a h_F16d 2 = true /\
-  forall fuel, ~ serializer_ok (ser fuel h_F16d true [] 2).
-Proof.
-  split; [vm_compute; reflexivity|]. split; [vm_compute; reflexivity|].
-  intros fuel [j [H _]]. destruct fuel as [|[|[|f]]]; cbn in H; discriminate.
-Qed.
+Lemma regression_F16d :
+  serialize_top h_F16d 2 = SOk (JObj [([107], JObj [([112], JObj [])])]) /\ serializer_ok (serialize_top h_F16d 2).
+Proof. split; [vm_compute; reflexivity | eexists; split; vm_compute; reflexivity]. Qed.
 
 (* ---------- the positive part ---------- *)
 Section MixedInd.
@@ -93,21 +89,6 @@ Proof.
     + rewrite Hl. eexists. reflexivity.
   - destruct (dict_loop_exists (ens_mixed raw) kvs) as [l Hl].
     + intros kv Hkv. rewrite Forall_forall in H. rewrite forallb_forall in Hf. apply (H kv Hkv (Hf kv Hkv)).
-    + rewrite Hl. eexists. reflexivity.
-Qed.
-
-Lemma mixed_json_total : forall fuel h m, raw_free m = true -> exists j, mixed_json fuel h m = SOk j.
-Proof.
-  intros fuel h. induction m using mixed_ind'; cbn [raw_free mixed_json]; intro Hf;
-    try (eexists; reflexivity); try discriminate.
-  - destruct (smap_exists (mixed_json fuel h) (fun _ => True) l) as [l' [Hl _]].
-    + intros x Hx. rewrite Forall_forall in H. rewrite forallb_forall in Hf.
-      destruct (H x Hx (Hf x Hx)) as [j Hj]. exists j. split; [exact Hj | exact I].
-    + rewrite Hl. eexists. reflexivity.
-  - destruct (smap_exists (fun kv : str * mixed => sbind (mixed_json fuel h (snd kv)) (fun j => SOk (fst kv, j)))
-                (fun _ => True) kvs) as [l' [Hl _]].
-    + intros kv Hkv. rewrite Forall_forall in H. rewrite forallb_forall in Hf.
-      destruct (H kv Hkv (Hf kv Hkv)) as [j Hj]. rewrite Hj. eexists. split; [reflexivity | exact I].
     + rewrite Hl. eexists. reflexivity.
 Qed.
 
@@ -208,7 +189,7 @@ Proof.
       cbn [no_null_keys]. rewrite forallb_forall. rewrite Forall_forall in Pl. exact Pl.
   - destruct (existsb (Nat.eqb r) visited); [exists JNull; split; reflexivity|].
     destruct (walk_total h Hr Hff r f ltac:(lia)) as [m [Hm Pm]]. rewrite Hm. cbn [sbind].
-    destruct (mixed_json_total f h m Pm) as [j Hj]. rewrite Hj. cbn [sbind].
+    destruct (ens_mixed_total (ser f h false visited) m Pm) as [j Hj]. rewrite Hj. cbn [sbind].
     eexists. split; [reflexivity | apply remove_none_clean].
   - destruct (existsb (Nat.eqb r) visited); [exists JNull; split; reflexivity|].
     destruct (walk_total h Hr Hff r f ltac:(lia)) as [m [Hm Pm]]. rewrite Hm. cbn [sbind].
